@@ -21,7 +21,7 @@ DRIVER = "Drivers/C02.lean"
 FB = D.FB
 M64 = dsl.M64
 GLOBAL_BASE = interp.MAP_BASE
-CLASSES = ["unary-in-place", "unary-32-in-64", "narrow-reg-in-64"]     # inherited, program level (C01)
+CLASSES = ["narrow-reg-in-64"]     # inherited, program level (C01)
 NEG = "divmod-negative"                                                               # inherited, input level (C01)
 
 
